@@ -6,18 +6,31 @@
 
    protobuf's Unmarshal is third-party code: it enters as the parameter [decode]; for a driver
    case it is the finite table of what the real Unmarshal returned on the payloads of the case. *)
-From Coq Require Import List String Bool NArith Arith.
+From Coq Require Import List String Bool NArith ZArith Arith.
 From RQ Require Import Lib.AList Model.C19 Model.C18.
 Import ListNotations.
 Open Scope N_scope.
 
 (* what the service reads out of a decoded proto.Command *)
 Record command := {
-  cm_type : string;    (* Command_Type name; "unknown-type" for a number outside the enum *)
+  cm_type : Z;         (* Command.Type as decoded: ANY int32 the peer chose (the varint is truncated), negative included *)
   cm_nil : bool;       (* the oneof does not hold the request kind this type reads (Get...Request() == nil) *)
   cm_voter : bool;     (* JoinRequest.Voter *)
   cm_user : string; cm_pass : string  (* Credentials.GetUsername/GetPassword: "" when absent *)
 }.
+
+(* The switch on c.Type in handleConn: the 14 values of the proto enum have a case (and a term of
+   Model.C18); every other integer — negative, past the enum, huge — falls through the switch:
+   nothing is called, nothing is written, the loop goes on.  A TOTAL function of the integer. *)
+Definition type_name (t : Z) : string :=
+  match t with
+  | 0 => "COMMAND_TYPE_UNKNOWN" | 1 => "COMMAND_TYPE_GET_NODE_META" | 2 => "COMMAND_TYPE_EXECUTE"
+  | 3 => "COMMAND_TYPE_QUERY" | 4 => "COMMAND_TYPE_BACKUP" | 5 => "COMMAND_TYPE_LOAD"
+  | 6 => "COMMAND_TYPE_REMOVE_NODE" | 7 => "COMMAND_TYPE_NOTIFY" | 8 => "COMMAND_TYPE_JOIN"
+  | 9 => "COMMAND_TYPE_REQUEST" | 10 => "COMMAND_TYPE_LOAD_CHUNK" | 11 => "COMMAND_TYPE_BACKUP_STREAM"
+  | 12 => "COMMAND_TYPE_STEPDOWN" | 13 => "COMMAND_TYPE_HIGHWATER_MARK_UPDATE"
+  | _ => "unknown-type"
+  end%Z.
 
 Definition mux_cluster_header : N := 2.           (* cluster.MuxClusterHeader *)
 Definition max_command_size : N := 2147483647.     (* maxCommandSize = math.MaxInt32 *)
@@ -34,7 +47,7 @@ Definition buf_cap (received : N) : N := 2 * received + 512.
 Inductive ending :=
 | EClosed      (* the handler returned and closed the connection (EOF, bad length, bad protobuf) *)
 | ECrash       (* the process would have died: nil dereference *)
-| ENoTerm      (* the decoder named a command type the model has no term for: the model does not apply *)
+| ENoTerm      (* model artefact: no term for the type's name — proved unreachable *)
 | EFuel.       (* model artefact: recursion budget exhausted — proved unreachable *)
 
 Record result := {
@@ -58,7 +71,7 @@ Section Serve.
   Variable st : option cstore.                   (* the configured credential store, if any *)
 
   Definition handle (c : command) : option hstate :=
-    match term_of (cm_type c) with
+    match term_of (type_name (cm_type c)) with
     | None => None
     | Some h => Some (run (holds (authz st (cm_user c) (cm_pass c)) (cm_voter c)) (cm_nil c) true h)
     end.
